@@ -142,6 +142,13 @@ impl<'a, T: Read + Seek> QueueReader<'a, T> {
                     }
                 }
 
+                // Without any record with a non-zero bit size there is no way to know
+                // how many points a data packet contains and the queues would grow without bound.
+                if min_queue_size == usize::MAX {
+                    Error::not_implemented(
+                        "Point clouds where all records have a bit size of zero are not supported",
+                    )?
+                }
                 self.parse_byte_streams(min_queue_size)?;
             }
         };
